@@ -962,3 +962,18 @@ Proof.
   - reflexivity.
   - reflexivity.
 Qed.
+
+(* known finding link-rel-ignored on the string level: the answer carries the right next link
+   (last=b), but a rel="first" link-value stands before it and is the one that is followed *)
+Lemma link_rel_first_string_refuted :
+  exists header,
+    let base := mkS (b "http") (b "reg.test") (b "/v2/r/tags/list") (b "last=a") in
+    (exists pre, header = pre ++ b "<?last=b>; rel=""next""") /\
+    next_request (mkCfg KTags 0 0 []) base header = NNext (b "/v2/r/tags/list") [] /\
+    next_request (mkCfg KTags 0 0 []) base (b "<?last=b>; rel=""next""") = NNext (b "/v2/r/tags/list") (b "last=b").
+Proof.
+  exists (b "<?>; rel=""first"", <?last=b>; rel=""next"""). cbv zeta. split; [|split].
+  - exists (b "<?>; rel=""first"", "). reflexivity.
+  - vm_compute. reflexivity.
+  - vm_compute. reflexivity.
+Qed.
